@@ -7,7 +7,7 @@
 //!   c12 copy    <k:…/t:… blob keys> <…>         | <store>
 //! Trees are serialised in pre-order: `S` (next snapshot, in label order), `L:<name>:<key>:<tag>` (non-dir),
 //! `D:<name>:<key>:<tag>` … `E` (dir with subtree), `X:<name>:<key>:<tag>` (dir without subtree),
-//! `U:<name>:<key>:<tag>` (dir whose subtree cannot be read).  `<name>` is the rank of the node's unescaped
+//! `U:<name>:<key>:<tag>` (dir whose subtree cannot be read; `V:` if that subtree id is the empty tree's).  `<name>` is the rank of the node's unescaped
 //! name (`Node::name()`, the order trees are sorted by) among all names of the case in byte order — merge only
 //! compares names, so an order-isomorphic encoding is faithful; `<key>` = mtime seconds (the `cmp` of merge); `<tag>` = interned
 //! hash of everything else in the node (type, content ids, metadata, link target).
@@ -32,7 +32,13 @@ use rustic_core::{
 pub enum Sub {
     None,
     Unreadable,
+    /// unreadable, and the subtree id is the id of the empty tree (repair re-creates exactly that blob)
+    UnreadableEmpty,
     Tree(Vec<TNode>),
+}
+
+pub fn empty_tree_id() -> TreeId {
+    Tree::default().serialize().unwrap().1
 }
 
 #[derive(Clone, Debug)]
@@ -67,7 +73,8 @@ pub fn load_tree<S: IndexedFull>(repo: &Repository<S>, id: TreeId, depth: usize)
                     let _ = s;
                     Sub::Unreadable
                 }
-                Some(s) => load_tree(repo, s, depth + 1).map_or(Sub::Unreadable, Sub::Tree),
+                Some(s) => load_tree(repo, s, depth + 1)
+                    .map_or(if s == empty_tree_id() { Sub::UnreadableEmpty } else { Sub::Unreadable }, Sub::Tree),
             }
         } else {
             Sub::None
@@ -128,6 +135,7 @@ impl Enc {
                 match &t.sub {
                     Sub::None => out.push(format!("X:{head}")),
                     Sub::Unreadable => out.push(format!("U:{head}")),
+                    Sub::UnreadableEmpty => out.push(format!("V:{head}")),
                     Sub::Tree(s) => {
                         out.push(format!("D:{head}"));
                         self.tokens(s, out);
@@ -228,7 +236,7 @@ fn rand_source(rng: &mut Rng, stats: &mut Stats, gen_no: i64, plain_names: bool)
             stats.hit("node.symlink");
         }
         // distinct mtimes between generations so that the merge ordering is strict for differing nodes
-        e.mtime_s = 1_600_000_000 + gen_no * 1000 + rng.below(900) as i64;
+        e.mtime_s = 1_600_000_000 + gen_no * 1000 + 1 + rng.below(899) as i64;
         e.ctime_s = e.mtime_s;
         es.push(e);
     }
@@ -465,6 +473,7 @@ fn repair_tokens(enc: &mut Enc, ids: &mut BTreeMap<String, usize>, ts: &[TNode],
             match &t.sub {
                 Sub::None => out.push(format!("X:{head}")),
                 Sub::Unreadable => out.push(format!("U:{head}")),
+                Sub::UnreadableEmpty => out.push(format!("V:{head}")),
                 Sub::Tree(s) => {
                     out.push(format!("D:{head}"));
                     repair_tokens(enc, ids, s, out);
@@ -482,9 +491,9 @@ fn repair_model(h: &RepoHandle) -> Option<Vec<String>> {
     let mut enc = Enc::new(&trees);
     let mut ids = BTreeMap::new();
     let mut toks = Vec::new();
-    for t in &trees {
+    for (t, sn) in trees.iter().zip(&snaps) {
         match t {
-            None => toks.push("SU".to_string()),
+            None => toks.push(if sn.tree == empty_tree_id() { "SV".to_string() } else { "SU".to_string() }),
             Some(ts) => {
                 toks.push("S".to_string());
                 repair_tokens(&mut enc, &mut ids, ts, &mut toks);
